@@ -258,9 +258,9 @@ fn gen_wide(r: &mut Rng, max_keys: u32) -> Spec {
 // ------------------------------------------------------------------------------------------
 
 const SHARDS: usize = 64;
-struct TraceSink { seq: AtomicU64, bufs: Vec<Mutex<Vec<(u64, &'static str, QueryID, u64)>>> }
+struct TraceSink { seq: AtomicU64, boundary: AtomicU64, bufs: Vec<Mutex<Vec<(u64, &'static str, QueryID, u64)>>> }
 impl TraceSink {
-    fn new() -> Self { TraceSink { seq: AtomicU64::new(0), bufs: (0..SHARDS).map(|_| Mutex::new(Vec::new())).collect() } }
+    fn new() -> Self { TraceSink { seq: AtomicU64::new(0), boundary: AtomicU64::new(u64::MAX), bufs: (0..SHARDS).map(|_| Mutex::new(Vec::new())).collect() } }
     fn take(&self) -> Vec<(u64, &'static str, QueryID, u64)> {
         let mut all = vec![]; for b in &self.bufs { all.append(&mut b.lock().unwrap()); } all.sort_by_key(|e| e.0); all
     }
@@ -329,7 +329,7 @@ fn run_spec_inner(spec: &Spec, sink: Option<Arc<TraceSink>>) -> RunOut {
             ro.r1 = do_round(&engine, &sh, &spec.seq, &spec.tasks, &mut panic).await;
             ro.log1 = std::mem::take(&mut *sh.log.lock().unwrap());
             if panic.is_none() {
-                if let Some(s) = &sink { ro.boundary = s.seq.load(SeqCst); }
+                if let Some(s) = &sink { ro.boundary = s.seq.load(SeqCst); s.boundary.store(ro.boundary, SeqCst); }
                 { let mut s = engine.input_session().await; for (k, v) in &spec.edit { s.set_input(In(*k), *v).await; } s.commit().await; }
                 ro.r2 = do_round(&engine, &sh, &[], &spec.tasks2, &mut panic).await;
                 ro.log2 = std::mem::take(&mut *sh.log.lock().unwrap());
@@ -418,12 +418,12 @@ fn judge_run(spec: &Spec, ro: &RunOut) -> Verdict {
         }
         // non-trivial: two tasks share a root in round 1 and the edit changed a value some root read
         let mut seen: BTreeSet<u32> = BTreeSet::new(); let mut shared = false;
-        for t in &spec.tasks { let ks: BTreeSet<u32> = t.iter().copied().collect(); for k in ks { if !seen.insert(k) { shared = true; } } }
+        for t in &spec.tasks { let ks: BTreeSet<u32> = static_closure(p, t).into_iter().filter(|k| p.kind(*k) != Kind::Input).collect(); for k in ks { if !seen.insert(k) { shared = true; } } }
         let changed = spec.tasks.iter().flatten().chain(spec.seq.iter()).any(|k| s1.value(*k).unwrap() != s2.value(*k).unwrap());
         nontrivial = shared && changed && spec.tasks.len() >= 2;
     } else if !spec.full_oracles() {
         let mut seen: BTreeSet<u32> = BTreeSet::new(); let mut shared = false;
-        for t in &spec.tasks { let ks: BTreeSet<u32> = t.iter().copied().collect(); for k in ks { if !seen.insert(k) { shared = true; } } }
+        for t in &spec.tasks { let ks: BTreeSet<u32> = static_closure(p, t).into_iter().filter(|k| p.kind(*k) != Kind::Input).collect(); for k in ks { if !seen.insert(k) { shared = true; } } }
         nontrivial = shared && spec.tasks.len() >= 2;
     }
     let cancelled = ro.log1.iter().chain(ro.log2.iter()).filter(|e| e.result.is_none()).count() as u64;
@@ -448,7 +448,7 @@ fn eval_spec(ctx: &mut Ctx, spec: &Spec, sink: Option<Arc<TraceSink>>, tag: &str
             ctx.max("max_fanin", v.max_fanin);
             if v.max_fanin > 32 { ctx.inc(&format!("{tag}_runs_fanin_gt32"), 1); }
             if v.nontrivial { ctx.distinct.insert(hash_text(&text)); if ctx.samples.len() < 2 && text.len() < 3000 { ctx.samples.push(text.clone()); } }
-            for (sig, desc) in &v.fails { ctx.fail(sig, desc.clone(), &text); }
+            for (sig, desc) in &v.fails { ctx.inc(&format!("{tag}_fam_{}_hits:{sig}", spec.fam), 1); ctx.fail(sig, desc.clone(), &text); }
             if ro.panic.is_some() { None } else { Some(ro) }
         }
     }
@@ -470,7 +470,11 @@ fn gen_engine_spec(r: &mut Rng, i: u64, thorough: bool, small: bool) -> Spec {
 
 fn mode_engine(ctx: &mut Ctx, r: &mut Rng, n: u64, thorough: bool) {
     let t0 = Instant::now();
-    for i in 0..n { let spec = gen_engine_spec(r, i, thorough, false); eval_spec(ctx, &spec, None, "engine"); }
+    for i in 0..n {
+        let spec = gen_engine_spec(r, i, thorough, false); eval_spec(ctx, &spec, None, "engine");
+        // every hang costs the full wall limit and leaves an abandoned runtime behind
+        if ctx.counters.get("sig_hits:C02:hang").copied().unwrap_or(0) >= 3 { ctx.inc("engine_mode_stopped_after_3_hangs", 1); break; }
+    }
     ctx.inc("wall_ms_engine", t0.elapsed().as_millis() as u64);
 }
 
@@ -478,7 +482,8 @@ fn mode_engine(ctx: &mut Ctx, r: &mut Rng, n: u64, thorough: bool) {
 // mode trace
 // ------------------------------------------------------------------------------------------
 
-fn write_trace(ctx: &mut Ctx, out: &mut Out, evs: &[(u64, &'static str, QueryID, u64)], boundary: u64, fam: &str) {
+/// `partial` = the run hung: the events recorded so far are written without `ct epoch`/`ct end` lines the run did not reach
+fn write_trace(ctx: &mut Ctx, out: &mut Out, evs: &[(u64, &'static str, QueryID, u64)], boundary: u64, fam: &str, partial: bool) {
     let in_ty = In::STABLE_TYPE_ID;
     let mut keymap: HashMap<QueryID, u32> = HashMap::new();
     let mut genmap: HashMap<u64, u64> = HashMap::new();
@@ -505,10 +510,13 @@ fn write_trace(ctx: &mut Ctx, out: &mut Out, evs: &[(u64, &'static str, QueryID,
         ctx.inc(&format!("ct_events_{label}"), 1);
         out.line(&line, "ok"); lines += 1;
     }
-    if !epoch_written { out.line("ct epoch", "ok"); }
-    out.line("ct end", "ok");
+    if !partial {
+        if !epoch_written { out.line("ct epoch", "ok"); }
+        out.line("ct end", "ok");
+    }
     ctx.traces += 1; ctx.trace_events += lines;
     ctx.inc(&format!("traces_fam_{fam}"), 1);
+    if partial { ctx.inc("traces_partial_after_hang", 1); }
     ctx.max("max_events_per_trace", lines);
 }
 
@@ -522,10 +530,14 @@ fn mode_trace(ctx: &mut Ctx, out: &mut Out, r: &mut Rng, n: u64, no_fw: bool) {
         let ro = eval_spec(ctx, &spec, Some(sink.clone()), "trace");
         verif::set_sink(None);
         if ctx.counters.get("sig_hits:C02:hang").copied().unwrap_or(0) > before {
-            // an abandoned run may still emit: no further traced runs in this process
+            // an abandoned run may still emit: no further traced runs in this process; what was recorded is
+            // written as a partial trace (no `ct end`) so that the model can point at the offending event
+            std::thread::sleep(Duration::from_millis(100));
+            let evs = sink.take();
+            write_trace(ctx, out, &evs, sink.boundary.load(SeqCst), &spec.fam, true);
             ctx.inc("trace_mode_stopped_after_hang", 1); break;
         }
-        if let Some(ro) = ro { let evs = sink.take(); write_trace(ctx, out, &evs, ro.boundary, &spec.fam); } else { ctx.inc("traces_not_written_panic", 1); }
+        if let Some(ro) = ro { let evs = sink.take(); write_trace(ctx, out, &evs, ro.boundary, &spec.fam, false); } else { ctx.inc("traces_not_written_panic", 1); }
     }
     ctx.inc("wall_ms_trace", t0.elapsed().as_millis() as u64);
 }
@@ -547,14 +559,14 @@ fn tset_seq(ctx: &mut Ctx, out: &mut Out, r: &mut Rng, variant: &str) {
     let set = FxSet::new();
     let mut oracle: BTreeSet<u32> = BTreeSet::new();
     out.line(&format!("ts new 32 {variant}"), "ok");
-    let universe = *r.pick(&[20u64, 34, 40, 80, 80]);
-    let n_ops = r.range(30, 220);
+    let universe = *r.pick(&[20u64, 40, 60, 80, 80, 120]);
+    let n_ops = r.range(40, 260);
     let mut text = format!("tset-seq universe {universe}\n");
     let mut crossed_at: Option<u64> = None;
     // phases move the insert/remove balance so the length hovers around the threshold and crosses it
-    let mut ins_w = 6u64;
+    let mut ins_w = 7u64;
     for i in 0..n_ops {
-        if i % 40 == 39 { ins_w = *r.pick(&[2u64, 5, 6, 8]); }
+        if i % 40 == 39 { ins_w = *r.pick(&[3u64, 6, 8, 8]); }
         let t = r.below(4);
         let c = r.below(12);
         let (op, imp, exp) = if c < ins_w {
@@ -594,6 +606,7 @@ impl Hist {
             if t[0] == "tset-hist" { h.prefill = t[2].parse().unwrap(); }
             if t[0] == "thr" { let mut ops = vec![]; let mut i = 1; while i < t.len() { match t[i] { "ins" => { ops.push(TOp::Ins(t[i + 1].parse().unwrap())); i += 2; } "rem" => { ops.push(TOp::Rem(t[i + 1].parse().unwrap())); i += 2; } "len" => { ops.push(TOp::Len); i += 1; } _ => { ops.push(TOp::Iter); i += 1; } } } h.threads.push(ops); }
         }
+        h.threads.truncate(8); // the worker pool has 8 threads
         h
     }
 }
@@ -880,10 +893,10 @@ fn main() {
     let mut rng = Rng::new(a.seed);
     let t0 = Instant::now();
     // sizes: --n = number of engine runs; the other modes scale with it
-    let n = a.n.unwrap_or(if thorough { 300 } else { 36 });
+    let n = a.n.unwrap_or(if thorough { 1500 } else { 150 });
     let n_engine = flag("--n-engine").and_then(|x| x.parse().ok()).unwrap_or(n);
-    let n_trace = flag("--n-trace").and_then(|x| x.parse().ok()).unwrap_or((n * 2 / 3).max(1));
-    let n_seq = flag("--n-seq").and_then(|x| x.parse().ok()).unwrap_or(n.max(1));
+    let n_trace = flag("--n-trace").and_then(|x| x.parse().ok()).unwrap_or((n / 2).max(1));
+    let n_seq = flag("--n-seq").and_then(|x| x.parse().ok()).unwrap_or((n / 2).max(1));
     let n_hist = flag("--n-hist").and_then(|x| x.parse().ok()).unwrap_or(n * 8);
     if let Some(rp) = &a.replay {
         let text = std::fs::read_to_string(rp).unwrap();
@@ -908,7 +921,7 @@ fn main() {
     for (k, v) in &ctx.maxes { dist.push(format!("{}:{v}", jstr(k))); }
     dist.push(format!("\"mode\":{}", jstr(&mode)));
     dist.push(format!("\"tset_variant\":{}", jstr(match ctx.variant_fixed { Some(true) => "fixed", Some(false) => "asis", None => "n/a" })));
-    let rule = "engine/trace runs: program families gen (gen_program, normal+input nodes), fw (with firewalls/projections; overlap/hang/panic verdicts only), fanin (1 input, optional chain, 1..200 callers of one callee, biased 28..40 around the 32-element tier threshold; sequential prefix then concurrent rest), wide (layered, up to 600/3000 keys, unordered groups up to 40 keys, aggregator roots) x 2..16 tokio workers x round 1 (M tasks with overlapping roots) / one input edit / round 2 (all keys); non-trivial = at least 2 tasks request a common key in round 1 and the edit changes the from-scratch value of some round-1 root; tset sequences: non-trivial = crosses the threshold; tset histories: non-trivial = at least 2 threads and the history starts within 28..33 elements, ends at >= 28 or crosses the threshold; distinct by hash of the case text";
+    let rule = "engine/trace runs: program families gen (gen_program, normal+input nodes), fw (with firewalls/projections; overlap/hang/panic verdicts only), fanin (1 input, optional chain, 1..200 callers of one callee, biased 28..40 around the 32-element tier threshold; sequential prefix then concurrent rest), wide (layered, up to 600/3000 keys, unordered groups up to 40 keys, aggregator roots) x 2..16 tokio workers x round 1 (M tasks with overlapping roots) / one input edit / round 2 (all keys); non-trivial = at least 2 round-1 tasks request a common non-input key (as a root or through the dependencies of their roots) and the edit changes the from-scratch value of some round-1 root; tset sequences: non-trivial = crosses the threshold; tset histories: non-trivial = at least 2 threads and the history starts within 28..33 elements, ends at >= 28 or crosses the threshold; distinct by hash of the case text";
     let mut rep = String::from("{");
     rep.push_str(&format!("\"evaluations\":{},\"distinct_nontrivial\":{},", ctx.evals, ctx.distinct.len()));
     rep.push_str(&format!("\"rule\":{},", jstr(rule)));
